@@ -7,6 +7,7 @@ python3 tools/gen_constants.py
 python3 tools/gen_locks.py
 python3 tools/gen_loops.py
 python3 tools/gen_epoch.py
+python3 tools/gen_unsafe.py
 (cd lean && lake build Feox feoxdrv)
 cp /repo/Cargo.lock harness/Cargo.lock 2>/dev/null || true
 (cd harness && RUSTFLAGS="--cfg feoxdb_verif" cargo build --release --offline)
